@@ -172,11 +172,18 @@ def _unit_worker(case):
     cs.clear_document_context()
     try:
         if mode == "context":
-            cs.set_document_context(used_colors=used)
-            out["rtf"] = [_res(lambda q=q: cs.get_rtf_color_index(q)) for q in qs]
-            out["utils"] = [_res(lambda q=q: Utils._get_color_index(q)) for q in qs]
+            # (a palette that cannot be resolved may be refused when the context is set or when an index is asked
+            # for: the refusal is attributed to every query either way — eager and lazy validation are the same thing
+            # to a document)
+            e = _res(lambda: cs.set_document_context(used_colors=used))
+            if isinstance(e, dict) and "err" in e:
+                out["rtf"] = [e for _ in qs]
+                out["utils"] = [e for _ in qs]
+            else:
+                out["rtf"] = [_res(lambda q=q: cs.get_rtf_color_index(q)) for q in qs]
+                out["utils"] = [_res(lambda q=q: Utils._get_color_index(q)) for q in qs]
         elif mode == "both":  # a context is set *and* a list is passed: the explicit list decides
-            cs.set_document_context(used_colors=case["ctx"])
+            _res(lambda: cs.set_document_context(used_colors=case["ctx"]))
             out["rtf"] = [_res(lambda q=q: cs.get_rtf_color_index(q, used)) for q in qs]
             out["utils"] = [_res(lambda q=q: Utils._get_color_index(q, used)) for q in qs]
         elif mode == "explicit":
